@@ -51,6 +51,7 @@ class Runner:
         t_case = time.time()
         rec.soft = []
         try:
+            _case_started[0] = t_case
             signal.setitimer(signal.ITIMER_REAL, CASE_TIMEOUT)
             try:
                 nt = self.clause.oracle(case, rec)
@@ -169,6 +170,76 @@ class Runner:
                     raise
 
 
+    # ------------------------------------------------------------------
+    def run_fuzz(self, tier, seed, shard, nshards, finish):
+        """Coverage-guided engine: libFuzzer (atheris) mutates a byte string, Hypothesis decodes it through the clause's own
+        strategy (fuzz_one_input), the clause's oracle judges the case. emd was imported under atheris instrumentation, so
+        new branches / comparison operands inside emd steer the mutation. Stops after `budget` decoded cases (or 30x as many
+        executions); a violation is saved as the decoded case (JSON replay, no atheris needed to re-run it)."""
+        import atheris
+        from hypothesis import given, settings, HealthCheck
+        from hypothesis.strategies import SearchStrategy
+        _fix_bytestring_provider()
+        strat = self.clause.strategy
+        if not isinstance(strat, SearchStrategy):
+            strat = strat(tier)
+        budget = self.clause.fuzz[0] if tier == 'quick' else self.clause.fuzz[1]
+        state = {'execs': 0}
+
+        @settings(database=None, deadline=None, suppress_health_check=list(HealthCheck))
+        @given(strat)
+        def test(case):
+            self.run_case(case, reraise=False)
+
+        def one(data):
+            if state['execs'] == 0:
+                signal.signal(signal.SIGALRM, _alarm)      # libFuzzer installed its own handler when it started
+            state['execs'] += 1
+            test.hypothesis.fuzz_one_input(data)
+            if self.rec.evaluations >= budget or state['execs'] >= 30 * budget:
+                self.rec.classes['_engine=atheris executions'] += state['execs']
+                finish()
+
+        corpus = os.path.join(os.path.dirname(os.path.abspath(sys.argv[-1])), 'corpus-%s-%d' % (self.clause.name, shard))
+        os.makedirs(corpus, exist_ok=True)
+        s = (seed * 1000003 + shard * 7919 + _stable(self.clause.name)) % (2**31 - 2) + 1
+        # starting corpus: pseudo-random byte strings long enough for the strategy to decode (from an empty corpus libFuzzer
+        # spends its budget on inputs that run out of bytes); a function of the seed only
+        import random
+        rnd = random.Random(s)
+        for i in range(24):
+            with open(os.path.join(corpus, 'seed%02d' % i), 'wb') as f:
+                f.write(rnd.randbytes([64, 512, 2048, 8192][i % 4]))
+        atheris.Setup([sys.argv[0], '-seed=%d' % s, '-runs=%d' % (40 * budget), '-max_len=8192', '-len_control=0',
+                       '-timeout=1200', '-print_final_stats=0', '-verbosity=0', corpus], one)
+        atheris.Fuzz()
+        finish()        # not reached when libFuzzer exits by itself
+
+
+def _fix_bytestring_provider():
+    """Hypothesis 6.168's byte-string back end (used by fuzz_one_input) draws a bounded integer as raw bits and rejects
+    until it lies in [min, max] *without adding min*: integers(2, 3) can never be decoded (only 0 or 1 are produced), which
+    rules out every fixed_dictionaries strategy with >= 4 keys (its key shuffle draws integers(2, 3)). Corrected here, in the
+    harness only: min + bits, rejected while above max."""
+    from hypothesis.internal.conjecture import providers
+
+    def draw_integer(self, min_value=None, max_value=None, *, weights=None, shrink_towards=0):
+        if min_value is None and max_value is None:
+            min_value, max_value = -(2**127), 2**127 - 1
+        elif min_value is None:
+            min_value = max_value - 2**64
+        elif max_value is None:
+            max_value = min_value + 2**64
+        if min_value == max_value:
+            return min_value
+        bits = (max_value - min_value).bit_length()
+        value = min_value + self._draw_bits(bits)
+        while value > max_value:
+            value = min_value + self._draw_bits(bits)
+        return value
+    providers.BytestringProvider.draw_integer = draw_integer
+
+
 class CaseTimeout(BaseException):
     """One case ran longer than CASE_TIMEOUT seconds: inconclusive (harness error), never a violation -
     unless a clause catches it itself because termination is what its property is about (C04)."""
@@ -178,7 +249,12 @@ CASE_TIMEOUT = float(os.environ.get('VERIF_CASE_TIMEOUT', '240'))     # raised t
 
 
 def _alarm(signum, frame):
+    if time.time() - _case_started[0] < CASE_TIMEOUT - 1:
+        return                  # somebody else's timer (libFuzzer arms one in the fuzz engine)
     raise CaseTimeout('a single case exceeded %.0f s' % CASE_TIMEOUT)
+
+
+_case_started = [0.0]
 
 
 def _stable(s):
@@ -191,10 +267,51 @@ def main(argv):
     t0 = time.time()
     out = {'error': None}
     signal.signal(signal.SIGALRM, _alarm)
+    holder = {}
+
+    def write_out():
+        rec = holder['r'].rec
+        outpath = argv[-1]
+        hpath = outpath + '.npy'
+        np.save(hpath, np.array(sorted(rec.hashes), dtype=np.uint64))
+        out.update({
+            'clause': holder['name'],
+            'evaluations': rec.evaluations,
+            'nontrivial': len(rec.hashes),
+            'hashes': hpath,
+            'classes': dict(rec.classes),
+            'excluded': dict(rec.excluded),
+            'known': rec.known,
+            'violations': rec.violations,
+            'samples': rec.samples,
+            'slowest': list(holder['r'].slowest),
+        })
+        out['wall_s'] = time.time() - t0
+        with open(outpath, 'w') as f:
+            json.dump(out, f)
+
     try:
-        core.import_emd()
+        if mode == 'fuzz':
+            import atheris
+            with atheris.instrument_imports(include=['emd'], enable_loader_override=False):
+                core.import_emd()
+        else:
+            core.import_emd()
         known = core.load_known()
-        if mode == 'run':
+        if mode == 'fuzz':
+            pid, cname, shard, nshards, tier, seed, outpath = argv[1:8]
+            shard, nshards, seed = int(shard), int(nshards), int(seed)
+            mod = load_prop(pid)
+            clause = find_clause(mod, cname)
+            r = Runner(pid, clause, known)
+            holder.update(r=r, name=cname + '~fuzz')
+
+            def finish():
+                write_out()
+                sys.stdout.flush()
+                os._exit(0)
+            r.run_fuzz(tier, seed, shard, nshards, finish)
+        elif mode == 'run':
             pid, cname, shard, nshards, tier, seed, outpath = argv[1:8]
             shard, nshards, seed = int(shard), int(nshards), int(seed)
             if tier == 'thorough' and 'VERIF_CASE_TIMEOUT' not in os.environ:
